@@ -271,6 +271,16 @@ class Unit:
                            obligations=[])
         self.out_lines = []   # (text, origin, fn)
         self.obl = {}         # tag -> dict(owner,label,fn,kind)
+        # inventory of the tree the contracts were written for (tools/mkinventory.py): item keys, function names and the function
+        # each in-body rewrite lives in. It tells a NEW item / function (no contract can exist for it) from a known one, and lets a
+        # lost in-body rewrite cost one function instead of the unit.
+        self.inv = None
+        ip = os.path.join(CONTRACTS, 'inventory.json')
+        if os.path.exists(ip) and not os.environ.get('VERIF_NO_INVENTORY'):
+            with open(ip) as fh:
+                self.inv = json.load(fh).get('units', {}).get(self.name)
+        self.lost_rw = {}     # qname -> [rewrite text] : in-body rewrites that no longer match
+        self.inventory_out = dict(files={}, rewrites={})
 
     def load_spec(self, unit_path):
         with open(unit_path, 'rb') as f:
@@ -483,6 +493,44 @@ class Unit:
         for i, r in enumerate(drop_re):
             if i not in matched_drop:
                 raise LostAnchor("drop pattern %r matched no item in %s" % (r.pattern, path))
+        # ---- K1: items that did not exist when the contracts were written. No keep / drop pattern was written with them in mind:
+        #      a new NAMED item (fn / const / static / struct / enum / type) is extracted iff extracted code refers to its name.
+        inv_file = (self.inv or {}).get('files', {}).get(path)
+        if inv_file is not None:
+            known = set(inv_file['items'])
+
+            def item_name(key):
+                m = re.match(r'^(?:pub(?:\([a-z]+\))? )?(?:const |static (?:mut )?|(?:unsafe )?fn |struct |enum |type )([A-Za-z_][A-Za-z0-9_]*)', key)
+                return m.group(1) if m else None
+            new_named = [it for it in items if it['key'] not in known and item_name(it['key'])
+                         and not re.search(r'#\[cfg\(test\)\]', text[it['a']:it['hdr_a']])]
+            if new_named:
+                kept_ids = set(id(k) for k in kept)
+                base = [k for k in kept if k not in new_named]
+                chosen = []
+                changed = True
+                while changed:
+                    changed = False
+                    for it in new_named:
+                        if it in chosen:
+                            continue
+                        nm = item_name(it['key'])
+                        if any(re.search(r'\b%s\b' % re.escape(nm), text[k['hdr_a']:k['b']]) for k in base + chosen):
+                            chosen.append(it)
+                            changed = True
+                for it in new_named:
+                    nm = item_name(it['key'])
+                    if it in chosen and id(it) not in kept_ids:
+                        kept.append(it)
+                        if it['key'] in dropped:
+                            dropped.remove(it['key'])
+                        self.rule('K1', path, line_of(text, it['hdr_a']), 'new item `%s` extracted: extracted code refers to it' % nm)
+                    elif it not in chosen and id(it) in kept_ids:
+                        kept.remove(it)
+                        dropped.append(it['key'])
+                        self.rule('K1', path, line_of(text, it['hdr_a']), 'new item `%s` not extracted: no extracted code refers to it' % nm)
+                kept.sort(key=lambda k: k['a'])
+        self.inventory_out['files'][path] = dict(items=[it['key'] for it in items], fns=[])
         self.report['files'].append(dict(path=path, kept=[k['key'] for k in kept], dropped=dropped))
 
         # ---- global regex rules on kept ranges
@@ -524,6 +572,22 @@ class Unit:
                 e = match_brace(text, m.end() - 1)
                 ed.add(m.start(), e, 'crate::shim::fmt_opaque()', 'N2')
                 self.rule('N2', path, line_of(text, m.start()), 'format!(..) -> opaque String')
+        for m in re.finditer(r'\bdebug_assert(?:_eq|_ne)?!\s*\(', text):
+            if in_kept(m.start()) and code_at(m.start()):
+                e = match_brace(text, m.end() - 1)
+                e2 = e
+                while e2 < len(text) and text[e2] in ' \t':
+                    e2 += 1
+                if e2 < len(text) and text[e2] == ';':
+                    e2 += 1
+                ed.add(m.start(), e2, '', 'N6')
+                self.rule('N6', path, line_of(text, m.start()), 'debug_assert!(..) removed (compiled out of the release build that ships; a debug-build panic from it is not covered)')
+                self.report['assumptions'].append(dict(where="%s:%d" % (path, line_of(text, m.start())), what='debug_assert removed',
+                                                       text='debug assertions are not checked: release-build semantics'))
+        for m in re.finditer(r'\b(?:const|static)\s+[A-Za-z_][A-Za-z0-9_]*\s*:\s*&(?!\s*\')', text):
+            if in_kept(m.start()) and code_at(m.start()):
+                ed.add(m.end(), m.end(), "'static ", 'N7')
+                self.rule('N7', path, line_of(text, m.start()), "elided lifetime of a const / static reference spelled out as 'static (the verus! macro does not elide it)")
         for m in re.finditer(r'\bpub\(crate\)', text):
             if in_kept(m.start()) and code_at(m.start()):
                 ed.add(m.start(), m.end(), 'pub', 'N3')
@@ -539,8 +603,16 @@ class Unit:
                 if in_kept(k) and code_at(k):
                     ed.add(k, k + len(rw['from']), rw['to'], 'RW')
                     self.rule('RW', path, line_of(text, k), '`%s` -> `%s` (%s)' % (rw['from'], rw['to'], rw.get('why', '')))
+                    self.report['rules'][-1]['rw_from'] = rw['from']
                     cnt += 1
             if cnt == 0:
+                # an in-body rewrite whose text is gone: the function it lived in (known from the inventory) is undecided - its
+                # failures can no longer be trusted - instead of the whole unit. A file-level rewrite still loses the unit.
+                homes = ((self.inv or {}).get('rewrites', {}).get(path, {}) or {}).get(rw['from'])
+                if homes and all(homes):
+                    for q in homes:
+                        self.lost_rw.setdefault(q, []).append(rw['from'])
+                    continue
                 raise LostAnchor("rewrite %r matched nothing in %s" % (rw['from'], path))
 
         # ---- N3b: every field of an extracted struct is made `pub` (visibility only; open spec fns must name the fields)
@@ -678,6 +750,26 @@ class Unit:
                 # fn_drop
             elif fn_name_of(key) and it['body_open'] is not None:
                 self.apply_fn_overlay(ed, text, mask, path, '', fn_name_of(key), it, fn_spans, f)
+        # ---- new functions (not in the inventory): no contract can have been written for them. Their own failures, and the failures
+        #      of the functions of this file that call them (which see no postcondition), are undecided.
+        inv_file = (self.inv or {}).get('files', {}).get(path)
+        if inv_file is not None:
+            known_fns = set(inv_file['fns'])
+            for (a, b, q) in fn_spans:
+                if q in known_fns:
+                    continue
+                nm = q.rsplit('::', 1)[-1].strip()
+                self.report.setdefault('lost_anchors', []).append(dict(fn=q, kind='new-function', anchor=nm))
+                self.report.setdefault('new_functions', []).append(q)
+                for (a2, b2, q2) in fn_spans:
+                    if q2 != q and re.search(r'(?<![A-Za-z0-9_])%s\s*\(' % re.escape(nm), text[a2:b2]):
+                        self.report.setdefault('lost_anchors', []).append(dict(fn=q2, kind='calls-new-function', anchor=nm))
+        self.inventory_out['files'].setdefault(path, dict(items=[], fns=[]))['fns'] = [q for (_, _, q) in fn_spans]
+        for q, lst in self.lost_rw.items():
+            if q.startswith(path + ' :: '):
+                for t in lst:
+                    if not any(la['fn'] == q and la['kind'] == 'rewrite' and la['anchor'] == t for la in self.report.get('lost_anchors', [])):
+                        self.report.setdefault('lost_anchors', []).append(dict(fn=q, kind='rewrite', anchor=t))
         # fn_drop handling: per-file list of "item-regex::fn"
         # ---- emit
         self.emit("// ---- %s" % path, ('gen',))
@@ -738,7 +830,9 @@ class Unit:
                 ed.drop_range(sub['a'], sub['b'], 'D1')
                 self.rule('D1', path, line_of(text, sub['hdr_a']), 'dropped fn %s' % qual)
                 return
-        forced = qname in getattr(self, 'force_external', set())
+        # body skipped (contract kept, body undecided): Verus refused a construct in it on an earlier attempt, or a rewrite that made it
+        # acceptable to Verus no longer finds its text (the unrewritten construct can crash the verifier instead of being refused)
+        forced = qname in getattr(self, 'force_external', set()) or qname in self.lost_rw
         t2 = self.spec.get('t2')
         ov = None
         for idx, fo in enumerate(self.fn_overlays):
@@ -861,6 +955,12 @@ class Unit:
         # attribute for external_body (a bodiless trait method declaration has nothing to skip)
         if mode == 'external_body' and sub['body_open'] is None:
             mode = 'verify'
+        if mode == 'external_body' and qname in getattr(self, 'drop_body', set()):
+            # D4: the body does not even compile in its extracted form (a rewrite rule or a shim no longer fits the changed code):
+            # it is replaced by a stub; the contract stays as an assumption for the callers, the function is undecided
+            ed.edits = [e for e in ed.edits if not (sub['body_open'] <= e[0] and e[1] <= sub['b'])]
+            ed.add(sub['body_open'], sub['b'], '{ unimplemented!() }', tagbase + 'D4')
+            self.rule('D4', path, line_of(text, sub['hdr_a']), 'body of `%s` replaced by a stub: it no longer compiles in its extracted form' % qual)
         if mode == 'external_body':
             ed.edits.insert(0, (sub['hdr_a'], sub['hdr_a'], '#[verifier::external_body]\n', tagbase + 'external_body'))
             self.report['assumptions'].append(dict(where=qname, what='external_body',
@@ -913,7 +1013,8 @@ class Unit:
                     # "undecided" (runner: only a natively replayed counterexample can raise an alarm)
                     self.report.setdefault('lost_anchors', []).append(dict(fn=qname, kind='loop', anchor=hdr))
                     if not any(t == tagbase + 'nodecreases' for (_, _, _, t) in ed.edits):
-                        ed.edits.append((sub['hdr_a'], sub['hdr_a'], '#[verifier::exec_allows_no_decreases_clause]\n', tagbase + 'nodecreases'))
+                        # first among the zero-width edits at the fn header (a `pub ` added by T1 must stay next to `fn`)
+                        ed.edits.insert(0, (sub['hdr_a'], sub['hdr_a'], '#[verifier::exec_allows_no_decreases_clause]\n', tagbase + 'nodecreases'))
                     continue
                 brace = pos + len(hdr) - 1
                 if text[brace] != '{':
@@ -980,19 +1081,28 @@ class Unit:
         lm = []
         for (l, o, f) in self.out_lines:
             lm.append(dict(origin=list(o), fn=f))
+        # a line produced by a rewrite rule inside a function body carries no source position: it belongs to the function whose
+        # lines surround it (needed to attribute a diagnostic on it to that function)
+        for i, e in enumerate(lm):
+            if e['fn'] is None and e['origin'][0] == 'ovl':
+                before = next((lm[j]['fn'] for j in range(i - 1, max(-1, i - 4), -1) if lm[j]['fn']), None)
+                after = next((lm[j]['fn'] for j in range(i + 1, min(len(lm), i + 4)) if lm[j]['fn']), None)
+                if before and before == after:
+                    e['fn'] = before
         return lm
 
 
-def build_unit(unit_name, outdir, force_external=None):
+def build_unit(unit_name, outdir, force_external=None, drop_body=None):
     unit_path = os.path.join(CONTRACTS, 'units', unit_name + '.toml')
     u = Unit(unit_path)
-    u.force_external = set(force_external or [])
+    u.force_external = set(force_external or []) | set(drop_body or [])
+    u.drop_body = set(drop_body or [])
     u.build()
     os.makedirs(outdir, exist_ok=True)
     out_rs = os.path.join(outdir, unit_name + '.rs')
     with open(out_rs, 'w') as f:
         f.write(u.text_out())
-    meta = dict(report=u.report, linemap=u.linemap(), obligations=u.obl)
+    meta = dict(report=u.report, linemap=u.linemap(), obligations=u.obl, inventory=u.inventory_out)
     with open(os.path.join(outdir, unit_name + '.map.json'), 'w') as f:
         json.dump(meta, f)
     return out_rs, meta
